@@ -50,7 +50,7 @@ func init() {
 		Rule:        "one run = generated program dense in Cleanup (nested, failing, panicking), Context samples, goroutines parked on Done(), Custom fns with cleanups/contexts that are retried, state machines; failing and minimizing Checks under all clock policies (70% of the runs, with a restart over the same directory when a fail file was written), Generator.Example on Custom generators (15%) and MakeFuzz on arbitrary bytes (15%, outside a bubble); the bracket automaton is evaluated for every invocation of every kind (generation, reproduction, candidate, confirmation, capture, final replay, fail-file replay, Custom inner T, Example, fuzz); non-trivial = at least one cleanup or context in the run; distinct by hash(program text, flags, clock policy)",
 		SimTimeNote: "sum of fake-clock advance inside synctest bubbles"}
 	props["C11"] = &propCfg{Engine: "E1", Level: "exploration", QuickRuns: 2400, ThoroughMax: 4_000_000, RealStub: e1RealStub,
-		Rule:        "one run = a selector program: each test case's behaviour in {pass, skip, errorf, errorf-then-skip, cleanup-time errorf, cleanup-time panic, fatal, errorf-then-generator-gives-up} is a function of a drawn selector with tape-chosen weights, checks 2-60, all clock policies, -rapid.v on/off; the ordered pairs of consecutive behaviours are reach probes (on a correct tree only the 16 pairs whose first element is pass or skip can occur: a falsified case ends generation); non-trivial = at least two generated cases; distinct by hash(program text, seed, checks, clock)",
+		Rule:        "one run = a selector program: each test case's behaviour in {pass, skip, errorf, errorf-then-skip, cleanup-time errorf, cleanup-time panic, fatal, errorf-then-generator-gives-up, skip-raised-by-the-last-cleanup} is a function of a drawn selector with tape-chosen weights, checks 2-60, all clock policies, -rapid.v on/off; the ordered pairs of consecutive behaviours are reach probes (on a correct tree only the 16 pairs whose first element is pass or skip can occur: a falsified case ends generation); non-trivial = at least two generated cases; distinct by hash(program text, seed, checks, clock)",
 		SimTimeNote: "sum of fake-clock advance inside synctest bubbles"}
 	props["C01"] = &propCfg{Engine: "E1", Level: "exploration", QuickRuns: 2400, ThoroughMax: 4_000_000, RealStub: e1RealStub,
 		Rule:        "one run = (generated failing property program: 1-4 failure sites of every kind, rejection-based generators, state machines, Custom fns; flags checks/steps/seed/shrinktime/nofailfile/v/debug; clock policy FROZEN/DRIP/HEAVY/CUT(k,delta)/STALL with k uniform over the run's history; optional save-time failure) executed by the real rapid.Check in a synctest bubble (plus a FROZEN pilot for CUT/STALL, also judged); non-trivial = Check reported a failure; distinct by hash(program text, flags, resolved clock policy)",
